@@ -159,6 +159,13 @@ func translate(old *ast.Module) (*ir.Module, error) {
 	addStart := time.Now()
 	gen.addDefsToModule()
 	dbg.Println("add IR definitions to IR module took:", time.Since(addStart))
+	// 9. Give unnamed globals the IDs they are printed with (they are indexed in
+	//    textual order above but printed per kind), so that the module does not
+	//    have to be renumbered the first time it is printed, possibly while other
+	//    goroutines read the IDs.
+	if err := gen.m.AssignGlobalIDs(); err != nil {
+		return nil, errors.WithStack(err)
+	}
 	return gen.m, nil
 }
 
